@@ -12,8 +12,9 @@ Next ==
   /\ LET e == Trace[l]
          perms == SetOf(e.perms) IN
      \* C12
-     /\ Report("TypeOK", e.dyn \in {e.fmt, "nil"})
-     /\ Report("TypeOK", e.dyn = "nil" => ("pr" \notin perms \/ (e.dyn0 = "nil" /\ ~e.everchanged)))
+     \* (a format the library has no constant for declares no type)
+     /\ Report("TypeOK", e.fmtknown => e.dyn \in {e.fmt, "nil"})
+     /\ Report("TypeOK", (e.fmtknown /\ e.dyn = "nil") => ("pr" \notin perms \/ (e.dyn0 = "nil" /\ ~e.everchanged)))
      /\ Report("RangeOK", e.inrange)
      /\ Report("NoUpdatePanic", ~e.panic)
      /\ Report("NoGetterPanic", ("pr" \in perms /\ e.dyn # "nil") => ~e.getpanic)
